@@ -34,7 +34,13 @@ impl RequestHandler<Completion> for CompletionHandler {
                 // Try to determine the previous characters to see if we're trying to auto-complete inside a scope
                 let mut line = "";
                 let mut nested_scope = None;
-                if let Some(source_file) = codegen.tree().files.get(path) {
+                // The position is supplied by the client and may lie beyond the end of the file
+                if let Some(source_file) = codegen
+                    .tree()
+                    .files
+                    .get(path)
+                    .filter(|source_file| source_line < source_file.file.num_lines())
+                {
                     line = source_file.file.source_line(source_line);
 
                     // Only look at the line until the source_column
